@@ -76,7 +76,9 @@ def run_tlc(work, module, cfg, env=None, workers=None, timeout=900, simulate=Non
         jopts.append("-Dtlc2.tool.queue.IStateQueue=StateDeque")
     cmd = ["timeout", str(timeout), "java"] + jopts + ["-cp", TLA_CP, "tlc2.TLC",
            "-workers", str(workers or WORKERS), "-metadir", meta,
-           "-cleanup", "-noGenerateSpecTE", "-config", cfg]
+           "-cleanup", "-noGenerateSpecTE", "-maxSetSize", "20000000", "-config", cfg]
+    # (-maxSetSize: TLC refuses to build a set or sequence of more than 10^6 elements by default;
+    # the index sequence of a 1.2 MB stream is one)
     # Per-action coverage is opt-in (VERIF_COVERAGE=1): TLC's cost-model creation walks every
     # definition at every use site, which stopped terminating in reasonable time once the text
     # operators were written with LAMBDA / FoldLeft instead of RECURSIVE (minutes on one thread
